@@ -18,20 +18,26 @@ from ..series import SeriesAlg, Ser
 
 
 def _find_branch(ctx, f):
+    from ..flow import strip_not
     for st in f.node.body:
-        if isinstance(st, ast.If) and isinstance(st.test, ast.Compare) and \
-                len(st.test.ops) == 1 and isinstance(st.test.left, ast.Name):
+        if not isinstance(st, ast.If):
+            continue
+        test, pol = strip_not(st.test)
+        if isinstance(test, ast.Compare) and len(test.ops) == 1 and \
+                isinstance(test.left, ast.Name):
             try:
-                thr = ctx.repo.fold(st.test.comparators[0], f.module)
+                thr = ctx.repo.fold(test.comparators[0], f.module)
             except ValueError:
                 continue
             if not isinstance(thr, (int, float)):
                 continue
-            op = st.test.ops[0]
+            op = test.ops[0]
+            body, orelse = (st.body, st.orelse) if pol else (st.orelse, st.body)
+            st.test_cmp = test
             if isinstance(op, (ast.Gt, ast.GtE)):
-                return st, st.test.left.id, float(thr), st.body, st.orelse
+                return st, test.left.id, float(thr), body, orelse
             if isinstance(op, (ast.Lt, ast.LtE)):
-                return st, st.test.left.id, float(thr), st.orelse, st.body
+                return st, test.left.id, float(thr), orelse, body
     raise AnalysisError('small-angle branch of mat_from_rotvec not found')
 
 
@@ -107,7 +113,7 @@ def rot_series(ctx):
                    "closed-form expression" % name)
         ctx.ob('ROT-SERIES', bound < 2.0 ** -53, None,
                "first omitted term of '%s' at the threshold (|rv| = %.3g): %.3g < 2^-53"
-               % (name, thr_n, bound), f=f, node=st.test, key='remainder-' + name,
+               % (name, thr_n, bound), f=f, node=getattr(st, 'test_cmp', st.test), key='remainder-' + name,
                why="branch threshold too large for the truncation: first omitted term of "
                    "'%s' is %.3g relative (> 2^-53), the routine is discontinuous across "
                    "the branch" % (name, bound))
